@@ -436,21 +436,24 @@ def attrTargets (u : UnitHdr) : AttrRef → List Off
   | a => attrDeps u a
 
 /-- `Unit::write` resolves every reference through the offsets of the DIEs it has written: an id
-that was reserved (`new_with_offsets` reserves every reachable offset of the whole split section)
-but never added (only the DIEs of the converted unit are) gives `Error::InvalidReference` -/
-def splitWriteOk (u : UnitHdr) (es : List Entry) (rootAttrs : List AttrRef)
+that was reserved but never added gives `Error::InvalidReference` -/
+def splitWriteOk (ids : List Off) (u : UnitHdr) (es : List Entry) (rootAttrs : List AttrRef)
     (res : List (Off × Option Off)) : Bool :=
   let written := u.rootOff :: res.map (·.1)
   (rootAttrs.flatMap (attrTargets u)).all written.contains &&
-  es.all (fun e => !written.contains (u.base + e.off) ||
+  -- the converted DIEs are the reserved ones
+  es.all (fun e => !ids.contains (u.base + e.off) ||
     (e.attrs.flatMap (attrTargets u)).all written.contains)
 
 /-- split DWARF: `FilterUnitSection::new_split`, `ConvertUnit::convert_split_with_filter`
 (`ConvertSplitUnitSection::new_with_filter` + `new_with_offsets`). The split section is a LIST of
 units: the filter walks all of them (the user's `while let Some(unit) = filter.read_unit()`), so
 the graph and the reachable offsets range over the whole section; the conversion takes the FIRST
-unit (`filter.units.into_iter().next()`, the unit `convert_split` converts as well), reserves every
-reachable offset in it without a per-unit scan and walks only that unit's DIEs. -/
+unit (`filter.units.into_iter().next()`, the unit `convert_split` converts as well), reserves the
+reachable offsets that lie inside that unit (fix aa527e6; before, every reachable offset of the
+section was reserved and a reference into a later unit failed only in `write`) and walks only that
+unit's DIEs. `splitWriteOk` mirrors the reference resolution of `write`; `split_write_never_fails`
+proves it cannot fail any more. -/
 def runSplit (m : Mode) (units : List (UnitHdr × List Entry)) (rootAttrs : List (List AttrRef) := []) : Outcome :=
   match buildDeps m units rootAttrs with
   | .panic w => .panic w
@@ -465,10 +468,12 @@ def runSplit (m : Mode) (units : List (UnitHdr × List Entry)) (rootAttrs : List
       match units with
       | [] => .panic "MissingSplitUnit"
       | ue :: _ =>
-        match convertUnits (ue.1.rootOff :: offsets) [ue] rootAttrs with
+        -- `new_with_offsets` (fix aa527e6): `if offset.to_unit_offset(&split_unit.header).is_none() { continue }`
+        let reserved := offsets.filter ue.1.containsOff
+        match convertUnits (ue.1.rootOff :: reserved) [ue] rootAttrs with
         | .error e => .convErr e
         | .ok us =>
-          if splitWriteOk ue.1 ue.2 (rootAttrs.headD []) (us.headD []) then .converted [offsets] us
+          if splitWriteOk (ue.1.rootOff :: reserved) ue.1 ue.2 (rootAttrs.headD []) (us.headD []) then .converted [reserved] us
           else .writeErr
 
 /-- the unfiltered `ConvertUnit::convert_split` (`ConvertSplitUnitSection::new`): the first unit of
